@@ -145,6 +145,13 @@ pub fn run(args: &Args) {
     rep.extra.insert("enumeration_maxlen".into(), json!(maxlen));
     rep.extra.insert("enumeration_total".into(), json!(total));
 
+    // (1b) every two-character operator with its second half replaced by a look-alike modulo 256 / 65536,
+    // and such a character next to every significant character
+    if args.shard == 0 {
+        for s in refimpl::sentence::operator_twins() {
+            check_one(&mut rep, &s, "truncation-twin", &strict, false);
+        }
+    }
     // (2) random families
     for k in 0..args.n {
         let mut rng = Rng::derive(args.seed, args.shard + 1000, k);
@@ -184,6 +191,24 @@ pub fn run(args: &Args) {
                 if !v.crate_accepts {
                     rep.sample_family("one-token-mutant-rejected", 2, json!({"sentence": s, "mutant": m}));
                 }
+            }
+        } else if fam < 68 {
+            // many small expressions side by side in one expression
+            let s = refimpl::sentence::wide_case(&mut rng);
+            check_one(&mut rep, &s, "wide", &strict, false);
+            if k % 64 == 0 {
+                note_distinct(&mut rep, &s);
+            }
+        } else if fam < 71 {
+            // a sentence with one ASCII character replaced / followed by a character equal to it modulo 256 or 65536
+            let mut parts = vec![];
+            let budget = 2 + rng.below(8) as i32;
+            SentenceGen::new(&mut rng, budget).expression(&mut parts);
+            let s = join_tokens(&parts, &mut rng);
+            if let Some(m) = refimpl::sentence::truncation_twin(&s, &mut rng) {
+                check_one(&mut rep, &m, "truncation-twin", &strict, false);
+                note_distinct(&mut rep, &m);
+                rep.sample_family("truncation-twin", 2, json!(m));
             }
         } else if fam < 80 {
             let s = token_soup(&mut rng, 12);
